@@ -43,6 +43,7 @@ var specialStrings = []string{
 	`"https://example.org/x"`, `"https://example.org/a b"`, `"http://[::1]:80/"`, `"https://exa mple.org/"`, `"://nohost"`, `"%zz"`, `"https://h/%zz"`,
 	`"mailto:x@y"`, `"/relative/path"`, `"?q"`, `"#f"`, `"https://user:pw@host:99/p?q#f"`, `"https://h\u0000ost/"`, `"https://host/\u001b[2J"`, `"https://host:port/"`, `":"`,
 	`"text/html"`, `"text/html; charset=utf-8"`, `"TEXT/HTML"`, `"text/"`, `"/html"`, `"text"`, `"te xt/html"`, `"text/html\u0000"`, `"a/b/c"`, `"*/*"`, `"text/x.y+z"`, `" text/html"`,
+	`"text/plain,text/html;q=0.9"`, `"text,x/html"`, `"image/png, image/gif"`, `"text/html,"`, `"0001-01-01T00:00:00Z"`, `"0001-01-01T00:00:00.000Z"`, `"0001-01-01T05:30:00+05:30"`, `"0001-01-01T00:00:01Z"`, `"1970-01-01T00:00:00Z"`, `"1969-12-31T23:59:59Z"`,
 	`"text/plain\nX: y"`, `"é/ü"`, `"a!#$%&'*+-.^_` + "`" + `|~/b"`, `"application/ld+json; profile=\"https://www.w3.org/ns/activitystreams\""`,
 }
 
